@@ -199,6 +199,7 @@ def run(ctx):
     n_sites = _positional_sites(ctx, repo)
     if n_sites < 40:
         raise AnalysisError(f"only {n_sites} long positional call sites checked")
+    _pm6_core_core(ctx, repo, "R10")
     try:
         check_core_core_form(ctx, "R10")
     except AnalysisError:
@@ -339,6 +340,20 @@ def _positional_sites(ctx, repo) -> int:
                               f"{m.rel}::{q}: call of {tq} passes `{bad[0][1]}` at position {bad[0][0]} where the parameter is `{bad[0][2]}` "
                               f"(swapped same-typed arguments run without error and silently change the model)" if bad else "")
     return n
+
+
+def _pm6_core_core(ctx, repo, rid):
+    """PM6-family core-core term against the published form (shared with C19-R4), by abstract interpretation on symbolic pairs"""
+    from ..assembly import interpreted_pm6_core_core
+    en_ = repo.mod("seqm/seqm_functions/energy.py")
+    try:
+        res = interpreted_pm6_core_core(repo)
+    except AnalysisError as e:
+        ctx.note(f"PM6 core-core branch of pair_nuclear_energy could not be interpreted ({str(e)[:100]}); not decided")
+        return
+    for method_, pair_, ok_, msg_ in res:
+        ctx.check(ok_, rid, en_, en_.func("pair_nuclear_energy"), "pair_nuclear_energy", f"{method_} {pair_}",
+                  f"{method_}: core-core energy of a {pair_} pair equals the published PM6 form (interpreted, symbolic)", msg_)
 
 
 def one_center_first_principles(ctx, repo, rid):
